@@ -43,6 +43,28 @@ CLAIMED = {
  'C17': dict(engine='EX-A', technique='explicit-state BFS over server cookie behaviours x timers x source address against a reference RFC 7873 client automaton',
    text='Family cookie: 1-2 servers, EDNS, repeated requests, replies {no cookie, valid S1, valid S2, wrong client part, BADCOOKIE+cookie, bare BADCOOKIE, TC}, advances 119 s / 121 s / 301 s / 86401 s, source-address change, a whole-second clock variant. Oracle, evaluated over every UDP/TCP transmission and every packet the library looked at: no cookie over TCP; client part unchanged unless the source address changed, it is a day old or a cookie-less reply reset the automaton; must change (and drop the server part) when the source address changes; server part is empty or the latest valid one and is echoed once learned; cookie omitted only if support never proven or regressed; wrong-client and BADCOOKIE packets never delivered; after support is proven the first cookie-less reply is never delivered; at most three UDP re-sends caused by BADCOOKIE; a server that never returned a cookie is served plainly.',
    note='The lengths of the unsupported/regression back-off are not asserted (the statement does not fix them).', ref='4/C17'),
+
+ 'C02': dict(engine='EX-C', technique='bounded-exhaustive enumeration of DNS messages (complete small pointer-graph space; RR grammar x every truncation x every single-position substitution from a 10-value alphabet; corpus closure; size boundaries) through every decoding entry point, ASan/UBSan + allocator ledger + pointer-rule reference as oracles',
+   text='Every input of four completely enumerated sub-spaces (name graphs of up to 5/6 cells with every pointer target incl. self/forward/past-the-end, decoding started at every cell; every supported RR type x RDATA shapes x RDLENGTH faults x owner-name layouts x sections closed under every truncation and every single-byte substitution from {00,01,3f,40,7f,80,c0,ff,orig^20,orig+1}; the 119 fuzz corpus files under the same closure; 0/1/11/12/65535/65536/70000-byte buffers) goes to ares_dns_parse (64 flag combinations on bases), every ares_parse_*_reply, ares_expand_name/ares_expand_string at every offset and the addrinfo paths; each call returns, the sanitizers are silent (inputs live in exact-size heap blocks), the ledger is empty after the matching free, success gives a complete result and failure none, and no forward/self compression pointer is ever accepted.',
+   note='Claim is the single-fault closure of a structurally complete base family, not all byte strings. A lenient parse of a malformed message is not a violation.', ref='4/C02'),
+ 'C03': dict(engine='EX-C + EX-A', technique='bounded-exhaustive write/parse/write round trips over enumerated records and buffer placements against an independent decoder; plus explicit-state exploration of the frames actually handed to virtual sockets',
+   text='Codec part: every valid base message and parseable corpus file, records built through the public setters (every RR type, boundary values, escaped names, 2-4 RRs sharing suffixes in all orders, sizes stepping across 16383/16384 and 65535), ares_dns_write_buf_tcp into buffers pre-filled with 0..16384 bytes with consumed prefixes and two messages back to back, and the legacy query builders over name x type x class x id x rd x edns tables: write OK implies length <= 65535, parse(write(r)) equals r field by field, write(parse(write(r))) is byte-identical, and the MESSAGE inside every TCP frame decodes with the independent decoder to the same record. Wire part (EX-A family wire): hand-built requests with three names sharing suffixes are sent over UDP, TCP (immediate / in-progress connect, pending-write callback, short writes, would-block) with up to three queued; every frame the virtual server receives decodes with the harness decoder to the names the application passed.',
+   note='Round trip on wire-sourced records is asserted only when the source is reference-well-formed.', ref='4/C03'),
+ 'C04': dict(engine='EX-C', technique='differential decoding of the whole enumerated message space against an independent RFC 1035/2782/3596/6891/8659/9460 decoder written for the harness',
+   text='For every base message and mutant of the C02 space: if c-ares and the reference both accept, their canonical dumps (header bits, counts, question, every RR field incl. OPT class/ttl mapping, option TLVs, SVCB params, CAA, TXT chunking, raw types) are identical; every generator-valid message inside the supported subset is accepted by c-ares; unescape(escape(labels)) == labels for every name with the reference presentation routines.',
+   note='The reference decoder shares no code with c-ares (compiled without its include path). c-ares accepting what the reference rejects is not flagged.', ref='4/C04'),
+ 'C14': dict(engine='EX-A', technique='exhaustive single-fault enumeration: every allocation index of every scenario fails once; token/socket/allocator ledgers, sanitizers and a post-fault usability probe as oracles',
+   text='Scenario family (per configuration udp+EDNS+cache+hosts, TCP, UDP+0x20+sortlist+rotate+udp_max_queries, and in thorough TFO+pending-write, legacy-fds+stay-open+bind, in-progress connect): channel set-up; each request kind answered / NXDOMAIN / timed out; cache hit; TC upgrade; failover; second search candidate; NODATA then data; CNAME / multi / mixed answers; cookie flows; BADCOOKIE; EDNS downgrade; malformed reply; set_servers (reorder, none, add); reinit; cancel; destroy with requests outstanding; dup; save_options; get_servers_csv; set_sortlist; socket faults. The clean run counts N allocations, then every n in 1..N fails alone: no sanitizer report, every accepted request completes exactly once, descriptors are closed once, the ledger is empty after destroy + library cleanup (leaks are attributed to their allocation site by re-running with call stacks), and afterwards a fresh query on the same channel succeeds.',
+   note='One failing allocation per run. Event-thread allocations are outside (no event thread in EX-A).', ref='4/C14'),
+ 'C18': dict(engine='EX-C', technique='bounded-exhaustive comparison of the eleven legacy reply parsers with the record API over the enumerated message space x caller capacities, red-zoned output arrays',
+   text='For every message of the RR-grammar and corpus closures and every caller capacity 0..N+1: each legacy parser reports a malformed-message status exactly when ares_dns_parse rejects; otherwise the list it returns equals the records of its type from the record API in answer order with equal fields (addresses, names after aliases, priorities, weights, ports, text chunks, TTLs) or the documented no-data status; never more elements than the offered capacity (exact-size heap arrays under ASan); the matching free function empties the ledger.',
+   note='Statuses EBADNAME/EFORMERR/EBADSTR are accepted as malformed-message errors beside EBADRESP; behaviours pinned by the repository tests (SOA without answer, NULL list on success) are observations.', ref='4/C18'),
+ 'C19': dict(engine='EX-D', technique='breadth-first search over operation sequences on the real containers, state = abstract content + hidden layout read through peek translation units, std:: reference models compared after every operation',
+   text='Array (all insert/remove/claim/set_size/sort/finish operations at every index class, growth across several thresholds, emptied-from-front patterns, dead slots poisoned), skip list (keys with duplicates, node level chosen exhaustively through the random tape, find/remove/claim/reinsert, both traversal directions), hash tables (generic + six typed fronts, three seeds + identity hash, colliding keys, two growth steps, overwrite/remove/get/keys), linked list (two lists, insert first/last/before/after, moves between lists, replace destructor, both directions) and byte buffer (append/consume/fetch/tag/rollback/clear/reclaim/set_length/split/replace/hex, dynamic and const): every return value and the full iteration order equal the reference after every operation; destructors run exactly once; ledger empty after destroy; sanitizers silent. Most families close (fixpoint under a live-element bound); buf and the prefilled skip list are depth-bounded.',
+   note='Equal state keys are argued to have equal futures because dead array slots are poisoned and keys include every hidden layout field; verified by the perm configuration.', ref='4/C19'),
+ 'C20': dict(engine='EX-A', technique='exhaustive enumeration of inbound split plans and outbound acceptance plans of TCP byte streams, differential against the unsegmented run',
+   text='For 1-3 queries queued on one TCP connection (USEVC and UDP->TC->TCP, deferred-write notification on/off, immediate / in-progress connect, all-at-once or staggered issue): every split of the reply stream into 2 and 3 reads and one byte per read; every accept-k-then-would-block and short-write pattern for every k, one byte per send, alternating byte/would-block, both directions one byte at a time. Each run must deliver the same results to the callbacks, put the same bytes on the wire and present the same whole, in-order, decodable frames to the server as the unsegmented run. UDP: a truncated answer is retried over TCP unless IGNTC (then delivered); a zero-length datagram before or after the real answer is harmless (library locals are pattern-initialised so that an uninitialised read is deterministic).',
+   note='The server answers only after all queued frames arrived. Quick covers every second position of the 3-way splits; thorough all.', ref='4/C20'),
 }
 
 NOT_YET = {
